@@ -15,6 +15,9 @@ CHECKS = {
  "C14": dict(design="3/C14", technique="property-based testing of cross-observable identities (Hypothesis), with an independent NumPy NDDO reference for atomic energies, heats, Fock eigenvalues, the energy functional and the dipole; metamorphic translation law",
              text="Every identity of the statement is evaluated on the attributes returned by one generated calculation (4 methods, neutrals/ions/UHF radicals, three solvers, single and zero-padded batches, S0 and CIS/RPA active states): energy partition, heat of formation from independently derived atomic energies, gap vs orbital energies, eigenvalues of the independently built Fock operator of the reported density, charges from the density, dipole from charges+hybridisation and its translation law. Exploration with algebraic bounds (1e-9) four orders above the measured round-off.",
              note="The independent reference (pv/refnddo.py) is my reading of the published equations, validated against this code at design time; Fock-eigenvalue clause only for MNDO/AM1/PM3 RHF <= 20 orbitals; PM6 (d orbitals) excluded because its dipole is not implemented."),
+ "C17": dict(design="3/C17", technique="property-based testing (Hypothesis) of algebraic invariants on real SurfaceHoppingDynamics objects: convergence order against a refined reference, alone-vs-batch differentials, history-vs-fresh-object differentials, energy bookkeeping of the real hop update",
+             text="Six generated sub-checks drive the repository's _propagate_electronic, _attempt_hop, _rescale_velocity_along_nac, _detect_crossings and _after_electronic_update: 4th-order convergence of the amplitudes and unitarity of the converged limit; hop probabilities in [0,1], row sum <= 1, equal alone and in a batch (incl. batches with one member on a coupling spike); velocity adjustment parallel to d/m, exact energy conservation, smaller root, frustrated hops untouched; relabelling is a permutation; crossing detection independent of earlier events on the same object; batch update conserves each member's own energy and equals its single-trajectory result. Exploration, ~40k cases per quick run.",
+             note="Objects are built without electronic structure the way tests/test_nonadiabatic.py builds them (private attributes); NAC vectors and forces come from the harness through the same hooks the repository's TullyFSSH overrides. Full SCF-driven FSSH histories are not part of this check. The >=3-cycle relabelling defect is a recorded known finding."),
 }
 NOT_APPLICABLE = []
 def main():
